@@ -850,6 +850,9 @@ const SKEL: &[&[u8]] = &[
     &[0x04, 0x00],                                           // OCTET STRING
     &[0x05, 0x00],                                           // NULL
     &[0x30, 0x00],                                           // empty SEQUENCE
+    &[0x78, 0x07, 0x0a, 0x01, 0x00, 0x04, 0x00, 0x04, 0x00], // ExtendedResponse (the operation the AD trailer belongs to)
+    &[0x78, 0x00],                                           // ExtendedResponse without elements
+    &[0x78, 0x03, 0x0a, 0x01, 0x00],                         // ExtendedResponse with the result code only
 ];
 
 #[derive(Clone, Debug, Serialize, Deserialize)]
@@ -929,7 +932,7 @@ pub fn property() -> Property {
     Property {
         id: "C11",
         level: "exploration",
-        rule: "lanes: decoder (a valid response message of any kind with exactly one mutation from the catalogue of DESIGN.md Appendix D - element deleted/duplicated/swapped, tag class/number/P-C changed, primitive emptied, over-long INTEGER, message id widened to 5-17 octets whose low octets still spell the original id, extra envelope element incl. the AD-style [10] trailer, any one TLV length falsified by +-delta (truncated/inflated inner lengths), byte set, truncation, outer tag changed, 12 malformed control lists - plus random bytes behind a plausible outer header and raw random bytes; oracle under catch_unwind: never a panic; if the octets announced by the outer length are all present the decoder must not answer 'need more'; a delivered frame consumes exactly the outer frame; input that is definitely not an envelope is never delivered); driver (the same delivered while 1-3 operations are pending on the simulated connection, incl. every response type under a live single or search id or under message id 0 (unsolicited notifications), with and without elements, alone or in the same read directly behind 1-3 well-formed frames; oracle: driver neither panics nor wedges (virtual watchdog), drive() returns, and for definite non-envelopes it returns an error that every pending operation observes); stack (child process, 2 MiB thread stack: frames with log-uniform 1..~250 000 nested constructed elements up to 1 MiB placed as envelope / protocolOp / controls; death by signal is the violation; a third of the chains use the indefinite length form inside a definite frame, with or without end-of-contents octets); skeletons (EXHAUSTIVE: every SEQUENCE of 0-4 (thorough 0-5) elements over a 14-element alphabet - valid id, id 0, operations with and without elements, valid / empty / primitive controls, AD-style [10] in three shapes, OCTET STRING, NULL, empty SEQUENCE - each with the outer length in short form and in 1-, 2- and 4-octet long form, through the decoder oracle). Non-trivial: exactly one mutation away from a valid message, or random bytes starting with a plausible outer header; every driver and stack case. Distinct = hash of the bytes.",
+        rule: "lanes: decoder (a valid response message of any kind with exactly one mutation from the catalogue of DESIGN.md Appendix D - element deleted/duplicated/swapped, tag class/number/P-C changed, primitive emptied, over-long INTEGER, message id widened to 5-17 octets whose low octets still spell the original id, extra envelope element incl. the AD-style [10] trailer, any one TLV length falsified by +-delta (truncated/inflated inner lengths), byte set, truncation, outer tag changed, 12 malformed control lists - plus random bytes behind a plausible outer header and raw random bytes; oracle under catch_unwind: never a panic; if the octets announced by the outer length are all present the decoder must not answer 'need more'; a delivered frame consumes exactly the outer frame; input that is definitely not an envelope is never delivered); driver (the same delivered while 1-3 operations are pending on the simulated connection, incl. every response type under a live single or search id or under message id 0 (unsolicited notifications), with and without elements, alone or in the same read directly behind 1-3 well-formed frames; oracle: driver neither panics nor wedges (virtual watchdog), drive() returns, and for definite non-envelopes it returns an error that every pending operation observes); stack (child process, 2 MiB thread stack: frames with log-uniform 1..~250 000 nested constructed elements up to 1 MiB placed as envelope / protocolOp / controls; death by signal is the violation; a third of the chains use the indefinite length form inside a definite frame, with or without end-of-contents octets); skeletons (EXHAUSTIVE: every SEQUENCE of 0-4 (thorough 0-5) elements over a 17-element alphabet - valid id, id 0, operations with and without elements, ExtendedResponse with 3 / 1 / 0 elements, valid / empty / primitive controls, AD-style [10] in three shapes, OCTET STRING, NULL, empty SEQUENCE - each with the outer length in short form and in 1-, 2- and 4-octet long form, through the decoder oracle). Non-trivial: exactly one mutation away from a valid message, or random bytes starting with a plausible outer header; every driver and stack case. Distinct = hash of the bytes.",
         assumptions: &[
             "harness classification of 'definitely not an envelope': outer TLV not a universal constructed SEQUENCE, fewer than two elements, first element not a 1-4 octet non-negative universal INTEGER, or inner lengths that overrun the outer frame",
             "a panic in the caller's task while converting a well-enveloped but ill-formed result is outside the statement (driver and envelope) and only labelled",
